@@ -258,7 +258,11 @@ def crowd_node_lists(thorough):
     would pick (255..257, 511..513, 1025, 1300; thorough 4097): work done per block of
     nodes, a seam between blocks.  Judged on the final list, without the per-split monitor."""
     out = []
-    for count in (255, 256, 257, 511, 512, 513, 1025, 1300) + ((4097,) if thorough else ()):
+    harvested = set()
+    for const in core.harvest_ints(_lib(), low=8, high=2500):
+        harvested |= {const - 1, const, const + 1, 2 * const + 1}
+    for count in sorted(set((255, 256, 257, 511, 512, 513, 1025, 1300) +
+                            ((4097,) if thorough else ())) | harvested):
         mult = (3, 5, 7) if count % 2 else (2, 7, 4)
         out.append(tuple((LATTICE[(mult[1] * k + 1) % 9], LATTICE[(mult[0] * k) % 9],
                           LATTICE[(mult[2] * k + 2) % 9]) for k in range(count)))
